@@ -28,3 +28,83 @@ def audit_cloud_maps(ck, ctx, months):
         ck.ob("R09.8", f"[data audit] map {m:02d}: shape (361, 576), finite positive pressures", bool(ok),
               (rel, 0, 0), "data", f"shape {d.shape}, min {float(d.min()):.4g}, max {float(d.max()):.4g}")
     ck.info["data_audit_cloud_maps"] = n
+
+
+def audit_tau_tables(ck, ctx, rule="R18.3", versions=("1", "2", "3"), tau_mass=1.77686):
+    """exhaustive over all nodes of all shipped nupyprop tables"""
+    import h5py
+    import numpy as np
+    n_nodes = 0
+    for v in versions:
+        for kind, names in (("cdf", ["log_e_nu", "beta_rad", "e_tau_frac"]), ("pexit", ["log_e_nu", "beta_rad"])):
+            path = data_dir(ctx, "nupyprop_tables", f"nu2tau_{kind}.{v}.h5")
+            rel = os.path.relpath(path, ctx.prog.repo)
+            site = (rel, 0, 0)
+            if not os.path.exists(path):
+                ck.ob(rule, f"[data audit] {rel} is shipped", False, site, "data", "missing")
+                continue
+            with h5py.File(path, "r") as h:
+                data = np.asarray(h["/"]["__nss_grid_data__"][()])
+                got = [h["/"].attrs.get(f"AXIS{i}") for i in range(data.ndim)]
+                got = [x.decode() if isinstance(x, bytes) else x for x in got]
+                axes = [np.asarray(h["/"]["__nss_grid_axes__"][nm][()]) for nm in got if nm in h["/"]["__nss_grid_axes__"]]
+            n_nodes += data.size
+            ck.ob(rule, f"[data audit] {kind} v{v}: axis names and order are {names}", got == names, site, "data", str(got))
+            ok_ax = len(axes) == data.ndim and all(a.ndim == 1 and a.shape[0] == data.shape[i] and
+                                                    np.all(np.diff(a) > 0) and np.isfinite(a).all()
+                                                    for i, a in enumerate(axes))
+            ck.ob(rule, f"[data audit] {kind} v{v}: axes are finite, strictly increasing and match the data shape", ok_ax,
+                  site, "data", ", ".join(f"{nm}[{a.shape[0]}] {a[0]:.4g}..{a[-1]:.4g}" for nm, a in zip(got, axes)))
+            ck.ob(rule, f"[data audit] {kind} v{v}: all values finite", bool(np.isfinite(data).all()), site, "data", "")
+            if kind == "cdf":
+                mono = bool((np.diff(data, axis=-1) >= 0).all())
+                ck.ob(rule, f"[data audit] cdf v{v}: every row is non-decreasing", mono, site, "data",
+                      f"{int((np.diff(data, axis=-1) < 0).sum())} decreasing steps")
+                ck.ob(rule, f"[data audit] cdf v{v}: every row starts at 0", bool((data[..., 0] == 0).all()), site, "data",
+                      f"max first value {float(np.abs(data[..., 0]).max()):.3g}")
+                ck.ob(rule, f"[data audit] cdf v{v}: every row ends within 1e-15 of 1",
+                      bool((np.abs(data[..., -1] - 1.0) <= 1e-15).all()), site, "data",
+                      f"max |last-1| {float(np.abs(data[..., -1] - 1).max()):.3g}")
+                # one True per row in the bracketing masks needs a strict crossing for u strictly inside the row range:
+                # smallest reachable tau energy: e_tau_frac at the last zero of the row x 10^min(log_e_nu)
+                if ok_ax and got == names:
+                    frac = axes[2]
+                    last_zero = (data == 0).cumsum(axis=-1).argmax(axis=-1)   # index of the last leading zero
+                    lead = (data == 0)
+                    idx = np.where(lead.all(axis=-1), data.shape[-1] - 1, np.argmin(lead, axis=-1) - 1).clip(0)
+                    zmin = frac[idx]
+                    emin = zmin * (10.0 ** axes[0])[:, None]
+                    ck.ob("R07.5" if rule == "R18.3" else rule, f"[data audit] cdf v{v}: smallest reachable tau energy "
+                          f"exceeds the tau mass {tau_mass} GeV (speed is real)", bool((emin > tau_mass).all()), site,
+                          "data", f"min reachable energy {float(emin.min()):.4g} GeV")
+                    ck.ob(rule, f"[data audit] cdf v{v}: sampled fraction never exceeds 1 (tau carries at most the "
+                          "neutrino energy)", bool(frac.max() <= 1.0 and frac.min() >= 0.0), site, "data",
+                          f"e_tau_frac in [{frac.min():.3g}, {frac.max():.3g}]")
+            else:
+                ck.ob("R05.7" if rule == "R18.3" else rule, f"[data audit] pexit v{v}: exit probabilities are at most 1",
+                      bool((data <= 1.0).all()), site, "data", f"max {float(data.max()):.4g}, min {float(data.min()):.4g}")
+    ck.info["data_audit_table_nodes"] = int(n_nodes)
+    return n_nodes
+
+
+def audit_waveform_table(ck, ctx, rule="R20.3"):
+    import h5py
+    import numpy as np
+    path = data_dir(ctx, "radio_params", "waveform_params.hdf5")
+    rel = os.path.relpath(path, ctx.prog.repo)
+    site = (rel, 0, 0)
+    if not os.path.exists(path):
+        ck.ob(rule, "[data audit] waveform_params.hdf5 is shipped", False, site, "data", "missing")
+        return
+    with h5py.File(path, "r") as h:
+        t = h["__astropy_table__"][()]
+    p = np.asarray(t["params"])
+    fc = p[:, :, 0]
+    same = bool((fc == fc[0]).all())
+    ck.ob(rule, f"[data audit] all {fc.shape[0]} rows of the waveform table share one frequency grid", same, site, "data",
+          "")
+    want = np.arange(5.0, 5.0 + 10.0 * fc.shape[1], 10.0)
+    ck.ob(rule, "[data audit] bin centres are 5, 15, ..., i.e. 10 MHz bins centred on multiples of 10 plus 5",
+          bool(np.array_equal(fc[0], want)), site, "data", f"{fc[0][0]:g}, {fc[0][1]:g}, ..., {fc[0][-1]:g} ({fc.shape[1]} bins)")
+    ck.ob(rule, "[data audit] all parameters are finite", bool(np.isfinite(p).all()), site, "data", "")
+    ck.info["data_audit_waveform_rows"] = int(fc.shape[0])
